@@ -92,33 +92,34 @@ type upload struct {
 
 // Cfg are the behaviour switches of a host.
 type Cfg struct {
-	Mount           string // "grant" (default), "decline" (202 + upload location), "refuse" (4xx), "mixed" (grant or decline per blob: MixedMountGrants)
-	AnonMount       bool   // grant a mount without "from" if any repository has the blob
-	NoHeadDigest    bool   // omit Docker-Content-Digest on HEAD/GET of manifests
-	ReferrersAPI    bool
-	ReferrersPage   int
-	TagDeleteAPI    bool
-	TagPage         int
-	CatalogPage     int
-	ChunkMin        int64
-	EnforceChunkMin bool   // refuse further data once a non-final chunk below ChunkMin was sent
-	AckPlan         []int  // i-th PATCH of a session: bytes of the chunk to accept (-1 / beyond = all)
-	AckStyle        string // "202" (default) or "416"
-	TagPageHole     int    // > 0: the k-th page of a paged tag listing is empty and only carries the Link to its content
-	MonoPutKeep     int    // > 0: the first single-request PUT of a session stores this many bytes of its body and then fails with 500
-	MaxAccept       int    // > 0: at most this many bytes of any PATCH are accepted (reported like an AckPlan cut)
-	EmptyRange      string // Range value of a session that holds no bytes: "0-0" (default, distribution) or "0--1" (olareg)
-	Early201        bool   // answer the PATCH that completes nothing special with 201 instead of 202
-	Relocate        string // "" (absolute path), "absolute" (scheme+host), "relative", "query", "newpath"
-	RefuseMonoPut   bool   // refuse PUT with a body on a session that has no data yet
-	BlobRedirect    string // base URL of another host to redirect blob GETs to
-	BlobCL          string // "" right, "wrong", "none"
-	BlobDigestHdr   string // Docker-Content-Digest of blob responses: "" echoes the requested digest, "none" omits it, "actual" names the bytes that are served
-	RangeMode       string // "" ok, "ignore", "wrongoffset", "wrongbytes", "nocr"
-	RejectMissing   bool   // validating mode: refuse manifest PUTs whose references are missing
-	ReadOnly        bool   // refuse every mutation with 405 (mirror)
-	Latency         func(ev *Event) time.Duration
-	ManifestCTWrong bool // serve manifests with a wrong Content-Type
+	Mount            string // "grant" (default), "decline" (202 + upload location), "refuse" (4xx), "mixed" (grant or decline per blob: MixedMountGrants)
+	AnonMount        bool   // grant a mount without "from" if any repository has the blob
+	NoHeadDigest     bool   // omit Docker-Content-Digest on HEAD/GET of manifests
+	ReferrersAPI     bool
+	ReferrersPage    int
+	TagDeleteAPI     bool
+	TagPage          int
+	CatalogPage      int
+	ChunkMin         int64
+	EnforceChunkMin  bool   // refuse further data once a non-final chunk below ChunkMin was sent
+	AckPlan          []int  // i-th PATCH of a session: bytes of the chunk to accept (-1 / beyond = all)
+	AckStyle         string // "202" (default) or "416"
+	TagPageHole      int    // > 0: the k-th page of a paged tag listing is empty and only carries the Link to its content
+	MonoPutKeep      int    // > 0: the first single-request PUT of a session stores this many bytes of its body and then fails with 500
+	MaxAccept        int    // > 0: at most this many bytes of any PATCH are accepted (reported like an AckPlan cut)
+	EmptyRange       string // Range value of a session that holds no bytes: "0-0" (default, distribution) or "0--1" (olareg)
+	Early201         bool   // answer the PATCH that completes nothing special with 201 instead of 202
+	Relocate         string // "" (absolute path), "absolute" (scheme+host), "relative", "query", "newpath"
+	RefuseMonoPut    bool   // refuse PUT with a body on a session that has no data yet
+	BlobRedirect     string // base URL of another host to redirect blob GETs to
+	BlobCL           string // "" right, "wrong", "none"
+	ManifestsAsBlobs bool   // GET / HEAD of the blob endpoint also answer for digests of stored manifests (one store behind both endpoints)
+	BlobDigestHdr    string // Docker-Content-Digest of blob responses: "" echoes the requested digest, "none" omits it, "actual" names the bytes that are served
+	RangeMode        string // "" ok, "ignore", "wrongoffset", "wrongbytes", "nocr"
+	RejectMissing    bool   // validating mode: refuse manifest PUTs whose references are missing
+	ReadOnly         bool   // refuse every mutation with 405 (mirror)
+	Latency          func(ev *Event) time.Duration
+	ManifestCTWrong  bool // serve manifests with a wrong Content-Type
 	// ExtraManifestHeader is added to manifest GET / HEAD responses (e.g. a lying Docker-Content-Digest).
 	ExtraManifestHeader map[string]string
 }
@@ -338,6 +339,7 @@ type response struct {
 	wrongCL int  // !=0: advertise Content-Length = len(body)+wrongCL
 	noCL    bool // chunked transfer
 	head    bool
+	hold    func() // with cut >= 0: called after the prefix was flushed; the connection is dropped when it returns
 }
 
 func newResp(status int) *response { return &response{status: status, hdr: http.Header{}, cut: -1} }
@@ -483,6 +485,11 @@ func writeResp(w http.ResponseWriter, resp *response) {
 		_, _ = w.Write(resp.body[:n])
 		if f, ok := w.(http.Flusher); ok {
 			f.Flush()
+		}
+		if resp.hold != nil {
+			resp.hold() // the body stalls: the client holds a response whose body never completes
+			DropConn(w)
+			return
 		}
 		CloseConn(w) // truncated body: orderly close, the client reads an unexpected EOF
 		return
@@ -820,6 +827,13 @@ func (h *Host) blob(ev *Event, r *http.Request) *response {
 		return h.errResp(404, "NAME_UNKNOWN", "repository not found")
 	}
 	b, ok := rp.Blobs[ev.Ref]
+	if !ok && h.Cfg.ManifestsAsBlobs && (ev.Method == "GET" || ev.Method == "HEAD") {
+		// one content-addressed store behind both endpoints (as distribution and olareg have): the blob
+		// endpoint also answers for the digest of a stored manifest
+		if m := rp.Manifests[ev.Ref]; m != nil {
+			b, ok = m.Raw, true
+		}
+	}
 	if !ok {
 		return h.errResp(404, "BLOB_UNKNOWN", "blob not found")
 	}
